@@ -14,3 +14,22 @@ Proof. vm_compute. reflexivity. Qed.
 
 (* the sites that print and carry on, as a number (moves when the checker changes) *)
 Definition neither_sites : list string := map fst (filter (fun s => match snd s with Neither => true | _ => false end) diag_sites).
+
+(* the sites that print, carry on, and are triaged as findings: each one refutes "every error diagnostic fails the compilation" *)
+Definition finding_triaged (id : string) : bool := existsb (fun t => String.eqb (fst t) id && is_finding (snd t)) triage.
+Definition nf_pred (s : string * site_kind) : bool := match snd s with Neither => finding_triaged (fst s) | _ => false end.
+Notation neither_findings := (filter nf_pred diag_sites).
+
+Lemma filter_spec {A} (f : A -> bool) (l : list A) s : In s (filter f l) -> In s l /\ f s = true.
+Proof. intros H. apply filter_In in H. exact H. Qed.
+
+Lemma neither_findings_spec_gen (l : list (string * site_kind)) : forall s, In s (filter nf_pred l) ->
+  In s l /\ snd s = Neither /\ finding_triaged (fst s) = true.
+Proof.
+  intros s H. apply filter_spec in H. destruct H as [H1 H2]. split; [exact H1|].
+  unfold nf_pred in H2. destruct (snd s); try discriminate H2. split; [reflexivity|exact H2].
+Qed.
+
+Lemma neither_findings_spec : forall s, In s neither_findings ->
+  In s diag_sites /\ snd s = Neither /\ finding_triaged (fst s) = true.
+Proof. exact (neither_findings_spec_gen diag_sites). Qed.
